@@ -59,6 +59,8 @@ def c12(tier, seed, replay):
             continue
         seen.add((rid, clause))
         it = byid[rid]
+        if clause.startswith("DRIFT:"):
+            print(f"DRIFT layer=split clause={clause[6:]} (mirror of the current arithmetic; no property is decided by it)")
         if clause.startswith("C12:"):
             rep.fail({"P": it["P"], "k": it["k"], "v": it["v"], "clause": clause},
                      f"{clause} split(k={it['k']}, var={it['v']}) of {it['P']}")
